@@ -623,6 +623,50 @@ impl<'a> VisitMut for WrapPass<'a> {
 }
 
 // ---------------------------------------------------------------------------------------------
+// R7 (method chains): `RECV.m1(A..).m2(B..)` -> `wrapper(RECV | &mut RECV, A.., B..)` for chains named
+// in the contract file; the wrapper in the prelude has the original chain as its body.
+
+struct ChainSpec { chain: Vec<String>, wrapper: String, recv_mode: String, used: u64 }
+struct ChainPass<'a> { rules: &'a mut Rules, specs: &'a mut Vec<ChainSpec> }
+impl<'a> VisitMut for ChainPass<'a> {
+    fn visit_expr_mut(&mut self, e: &mut Expr) {
+        visit_mut::visit_expr_mut(self, e);
+        for sp in self.specs.iter_mut() {
+            // walk down the receiver chain
+            let mut cur: &Expr = e;
+            let mut args_rev: Vec<Vec<Expr>> = vec![];
+            let mut ok = true;
+            for name in sp.chain.iter().rev() {
+                if let Expr::MethodCall(mc) = cur {
+                    if mc.method == name.as_str() && mc.turbofish.is_none() {
+                        args_rev.push(mc.args.iter().cloned().collect());
+                        cur = &mc.receiver;
+                        continue;
+                    }
+                }
+                ok = false;
+                break;
+            }
+            if !ok { continue; }
+            let recv = cur.clone();
+            let mut args: Vec<Expr> = vec![];
+            for a in args_rev.into_iter().rev() { args.extend(a); }
+            let w = Ident::new(&sp.wrapper, Span::call_site());
+            let new: Expr = match sp.recv_mode.as_str() {
+                "mut" => parse_quote!(#w(&mut #recv #(, #args)*)),
+                "ref" => parse_quote!(#w(& #recv #(, #args)*)),
+                _ => parse_quote!(#w(#recv #(, #args)*)),
+            };
+            sp.used += 1;
+            self.rules.hit("R7.method_chain_to_wrapper");
+            *e = new;
+            return;
+        }
+    }
+    fn visit_item_mut(&mut self, _i: &mut Item) {}
+}
+
+// ---------------------------------------------------------------------------------------------
 // R13: `L |= R` on bools (Verus has no non-short-circuit bool OR) -> `L = vx_bool_or(L, R)`;
 // the prelude wrapper's body is `a | b`.  Only applied in functions whose contract asks for it.
 
@@ -949,6 +993,15 @@ fn process_fn(
         _ => ForSel::None,
     };
     ForPass { rules, which }.visit_block_mut(block);
+    // R7 chains
+    let mut chains: Vec<ChainSpec> = vec![];
+    if let Some(Value::Array(a)) = spec.get("adapts") {
+        for v in a {
+            chains.push(ChainSpec { chain: get_str(v, "chain").unwrap_or_default().split('.').map(|s| s.to_string()).collect(), wrapper: get_str(v, "wrapper").unwrap_or_default(), recv_mode: get_str(v, "recv").unwrap_or_default(), used: 0 });
+        }
+    }
+    ChainPass { rules, specs: &mut chains }.visit_block_mut(block);
+    for c in &chains { if c.used == 0 { errors.push(format!("{}: lost anchor: method chain {} not found", path, c.chain.join("."))); } }
     // R14
     let mut wraps: Vec<WrapSpec> = vec![];
     if let Some(Value::Array(a)) = spec.get("wraps") {
@@ -1035,6 +1088,22 @@ fn process_fn(
         if exp != tag.closures { errors.push(format!("{}: lost anchor: expected {} closures, source has {}", path, exp, tag.closures)); }
     }
 
+    // R12 (functions): a pattern parameter `PAT: T` becomes `__vx_argN: T` + `let PAT = __vx_argN;`
+    {
+        let mut lets: Vec<Stmt> = vec![];
+        for (i, inp) in sig.inputs.iter_mut().enumerate() {
+            if let FnArg::Typed(pt) = inp {
+                if !matches!(&*pt.pat, Pat::Ident(_)) {
+                    let id = Ident::new(&format!("__vx_arg{}", i), Span::call_site());
+                    let old = (*pt.pat).clone();
+                    lets.push(parse_quote!(let #old = #id;));
+                    *pt.pat = parse_quote!(#id);
+                    rules.hit("R12.pattern_param_to_let");
+                }
+            }
+        }
+        for (k, l) in lets.into_iter().enumerate() { block.stmts.insert(k, l); }
+    }
     // signature
     if let Some(n) = get_str(spec, "as") { sig.ident = Ident::new(&n, Span::call_site()); }
     let pre = get_str(spec, "pre_attrs").unwrap_or_default();
@@ -1092,6 +1161,30 @@ fn process_struct_like(item: &mut Item, spec: &Value, cfg: &AttrCfg, rules: &mut
                     kept.push(fld);
                 }
                 if let Some(k) = &keep { for want in k { if !names.contains(want) { errors.push(format!("{}: lost anchor: field {} not found", path, want)); } } }
+                // R8: generic parameters left unused by the pruning get a PhantomData marker field
+                let body = kept.iter().map(|f| f.ty.to_token_stream().to_string()).collect::<Vec<_>>().join(" ");
+                let mut n = 0;
+                for gp in s.generics.params.iter() {
+                    match gp {
+                        GenericParam::Lifetime(lp) => {
+                            let lt = &lp.lifetime;
+                            if !body.contains(&lt.to_string()) {
+                                let id = Ident::new(&format!("__vx_phantom{}", n), Span::call_site()); n += 1;
+                                kept.push(parse_quote!(pub #id: core::marker::PhantomData<& #lt ()>));
+                                rules.hit("R8.phantom_for_unused_param");
+                            }
+                        }
+                        GenericParam::Type(tp) => {
+                            let t = &tp.ident;
+                            if !body.split(|c: char| !c.is_alphanumeric() && c != '_').any(|w| w == t.to_string()) {
+                                let id = Ident::new(&format!("__vx_phantom{}", n), Span::call_site()); n += 1;
+                                kept.push(parse_quote!(pub #id: core::marker::PhantomData<#t>));
+                                rules.hit("R8.phantom_for_unused_param");
+                            }
+                        }
+                        _ => {}
+                    }
+                }
                 f.named = kept;
             }
             if let Fields::Unnamed(f) = &mut s.fields {
